@@ -15,7 +15,7 @@ import numpy as np
 from common import f2h, h2f
 
 NUC18 = "ACGTUKMRSWYBDHVN?-"
-AA_ALL = "ACDEFGHIKLMNPQRSTVWYBZX*?-"
+AA_ALL = "ACDEFGHIKLMNPQRSTVWYBZXJOU*?-"
 IUPAC = {  # written independently of datatype.py
     "A": "A", "C": "C", "G": "G", "T": "T", "U": "T",
     "R": "AG", "Y": "CT", "M": "AC", "W": "AT", "S": "CG", "K": "GT",
@@ -24,6 +24,36 @@ IUPAC = {  # written independently of datatype.py
 AA20 = "ACDEFGHIKLMNPQRSTVWY"
 AA_AMBIG = {"B": "DN", "Z": "EQ"}
 UNIVERSAL = "KNKNTTTTRSRSIIMIQHQHPPPPRRRRLLLLEDEDAAAAGGGGVVVV*Y*YSSSS*CWCLFLF"  # AAA,AAC,AAG,AAT,ACA,...
+# NCBI translation tables in NCBI's own presentation (first base T,C,A,G; second T,C,A,G; third T,C,A,G), written
+# independently of datatype.py (which lists them in A,C,G,T order, after BEAST)
+NCBI = {
+    1: "FFLLSSSSYY**CC*WLLLLPPPPHHQQRRRRIIIMTTTTNNKKSSRRVVVVAAAADDEEGGGG",
+    2: "FFLLSSSSYY**CCWWLLLLPPPPHHQQRRRRIIMMTTTTNNKKSS**VVVVAAAADDEEGGGG",
+    3: "FFLLSSSSYY**CCWWTTTTPPPPHHQQRRRRIIMMTTTTNNKKSSRRVVVVAAAADDEEGGGG",
+    4: "FFLLSSSSYY**CCWWLLLLPPPPHHQQRRRRIIIMTTTTNNKKSSRRVVVVAAAADDEEGGGG",
+    5: "FFLLSSSSYY**CCWWLLLLPPPPHHQQRRRRIIMMTTTTNNKKSSSSVVVVAAAADDEEGGGG",
+    6: "FFLLSSSSYYQQCC*WLLLLPPPPHHQQRRRRIIIMTTTTNNKKSSRRVVVVAAAADDEEGGGG",
+    9: "FFLLSSSSYY**CCWWLLLLPPPPHHQQRRRRIIIMTTTTNNNKSSSSVVVVAAAADDEEGGGG",
+    10: "FFLLSSSSYY**CCCWLLLLPPPPHHQQRRRRIIIMTTTTNNKKSSRRVVVVAAAADDEEGGGG",
+    11: "FFLLSSSSYY**CC*WLLLLPPPPHHQQRRRRIIIMTTTTNNKKSSRRVVVVAAAADDEEGGGG",
+    12: "FFLLSSSSYY**CC*WLLLSPPPPHHQQRRRRIIIMTTTTNNKKSSRRVVVVAAAADDEEGGGG",
+    13: "FFLLSSSSYY**CCWWLLLLPPPPHHQQRRRRIIMMTTTTNNKKSSGGVVVVAAAADDEEGGGG",
+    14: "FFLLSSSSYYY*CCWWLLLLPPPPHHQQRRRRIIIMTTTTNNNKSSSSVVVVAAAADDEEGGGG",
+    15: "FFLLSSSSYY*QCC*WLLLLPPPPHHQQRRRRIIIMTTTTNNKKSSRRVVVVAAAADDEEGGGG",
+}
+# the genetic codes torchtree ships, by name, with the NCBI table each one is (None: no NCBI counterpart, no stops)
+GENETIC_CODES = [("Universal", 1), ("Vertebrate Mitochondrial", 2), ("Yeast", 3), ("Mold Protozoan Mitochondrial", 4),
+                 ("Mycoplasma", 4), ("Invertebrate Mitochondrial", 5), ("Ciliate", 6), ("Echinoderm Mitochondrial", 9),
+                 ("Euplotid Nuclear", 10), ("Bacterial", 11), ("Alternative Yeast", 12), ("Ascidian Mitochondrial", 13),
+                 ("Flatworm Mitochondrial", 14), ("Blepharisma Nuclear", 15), ("No stops", None)]
+
+
+def ncbi_aa(table_id, triplet):
+    """amino acid (or '*') of a triplet over ACGT under an NCBI table"""
+    if table_id is None:
+        return "X"
+    o = "TCAG"
+    return NCBI[table_id][o.index(triplet[0]) * 16 + o.index(triplet[1]) * 4 + o.index(triplet[2])]
 
 
 # ----------------------------------------------------------------------------- trees
@@ -245,9 +275,8 @@ def random_alignment(rng, names, nsites, alphabet=NUC18, plain="ACGT", p_amb=0.2
     return {nm: "".join(c[i] for c in cols) for i, nm in enumerate(names)}
 
 
-def random_codon_alignment(rng, names, nsites):
-    sense = [a + b + c for a in "ACGT" for b in "ACGT" for c in "ACGT"]
-    sense = [t for i, t in enumerate(sense) if UNIVERSAL[i] != "*"]
+def random_codon_alignment(rng, names, nsites, k=0):
+    sense = codon_sense(k)
     cols = []
     for _ in range(nsites):
         if cols and rng.random() < 0.3:
@@ -258,11 +287,14 @@ def random_codon_alignment(rng, names, nsites):
         for _nm in names:
             r = rng.random()
             if r < 0.12:
-                col.append(rng.choice(["---", "???", "A-G", "NNN", "ACR"]))
+                col.append(rng.choice(["---", "???", "A-G", "NNN", "ACR", "acn", "Y??"]))
             elif r < 0.6:
                 col.append(base)
             else:
-                col.append(rng.choice(sense))
+                t = rng.choice(sense)
+                if rng.random() < 0.2:
+                    t = t.lower() if rng.random() < 0.5 else t.replace("T", "U")
+                col.append(t)
         cols.append(col)
     return {nm: "".join(c[i] for c in cols) for i, nm in enumerate(names)}
 
@@ -298,25 +330,46 @@ def aa_state(c: str) -> int:
     return AA20.index(u) if u in AA20 else 20
 
 
-def codon_sense():
+def codon_sense(k=0):
+    """the states of the codon model for genetic code number k: the non-stop triplets in A,C,G,T order"""
     trip = [a + b + c for a in "ACGT" for b in "ACGT" for c in "ACGT"]
-    return [t for i, t in enumerate(trip) if UNIVERSAL[i] != "*"]
+    tid = GENETIC_CODES[k][1]
+    return [t for t in trip if ncbi_aa(tid, t) != "*"]
 
 
-def codon_vec(c: str, _use_amb: bool):
-    sense = codon_sense()
+def codon_vec(c: str, _use_amb: bool, k=0):
+    sense = codon_sense(k)
     u = c.upper().replace("U", "T")
-    if all(x in "ACGT" for x in u):
+    if len(u) == 3 and all(x in "ACGT" for x in u):
         if u in sense:
             return [1.0 if t == u else 0.0 for t in sense]
         return None  # stop codon: outside the model's state space (not generated)
     return [1.0] * len(sense)
 
 
-def codon_state(c: str) -> int:
-    sense = codon_sense()
+def codon_state(c: str, k=0) -> int:
+    sense = codon_sense(k)
     u = c.upper().replace("U", "T")
     return sense.index(u) if u in sense else len(sense)
+
+
+def general_vec(gen, c: str):
+    """GeneralDataType: a code is itself, an ambiguity key is the union of the codes it lists, anything else is
+    missing (the class has no way to switch ambiguities off)"""
+    codes, amb = gen["codes"], gen["ambiguities"]
+    if c in amb:
+        members = [amb[c]] if isinstance(amb[c], str) else list(amb[c])
+        return [1.0 if x in members else 0.0 for x in codes]
+    if c in codes:
+        return [1.0 if x == c else 0.0 for x in codes]
+    return [1.0] * len(codes)
+
+
+def general_state(gen, c: str) -> int:
+    codes, amb = gen["codes"], gen["ambiguities"]
+    if c in amb:
+        return codes.index(amb[c]) if isinstance(amb[c], str) else len(codes)  # only aliases keep a state
+    return codes.index(c) if c in codes else len(codes)
 
 
 DATATYPES = {
@@ -324,6 +377,56 @@ DATATYPES = {
     "aa": dict(size=1, S=20, vec=aa_vec, state=aa_state),
     "codon": dict(size=3, S=61, vec=codon_vec, state=codon_state),
 }
+
+
+def dt_of(case):
+    """size / number of states / independent tip vector and tip state functions of the data type of a case"""
+    d = case["datatype"]
+    if d == "codon":
+        k = case.get("genetic_code", 0)
+        return dict(size=3, S=len(codon_sense(k)), vec=lambda c, ua: codon_vec(c, ua, k), state=lambda c: codon_state(c, k))
+    if d == "general":
+        g = case["general"]
+        return dict(size=1, S=len(g["codes"]), vec=lambda c, ua: general_vec(g, c), state=lambda c: general_state(g, c))
+    return DATATYPES[d]
+
+
+def tip_vector(case, dt, sym, use_amb):
+    """the tip compatibility vector the property prescribes for a symbol: with tip states a symbol is its state or
+    missing; with tip partials it is the union of the states it may stand for (ambiguities on) or missing"""
+    if case.get("use_tip_states"):
+        st = dt["state"](sym)
+        return [1.0] * dt["S"] if st >= dt["S"] else [1.0 if j == st else 0.0 for j in range(dt["S"])]
+    return dt["vec"](sym, use_amb)
+
+
+def parse_indices(text):
+    """SitePattern `indices`: comma separated `i` or `start:stop:step` — Python's own indexing is the specification"""
+    out = []
+    for tok in text.split(","):
+        parts = tok.split(":")
+        if len(parts) == 1:
+            out.append(int(parts[0]))
+        else:
+            parts += [""] * (3 - len(parts))
+            out.append(slice(*[None if x == "" else int(x) for x in parts[:3]]))
+    return out
+
+
+def site_symbols(case):
+    """the alignment as the list of its sites, each a dict name -> symbol (after the optional column selection)"""
+    size = dt_of(case)["size"]
+    rows = {}
+    for nm, sq in case["seqs"].items():
+        syms = [sq[j * size:(j + 1) * size] for j in range(len(sq) // size)]
+        if case.get("indices"):
+            sel = []
+            for ix in parse_indices(case["indices"]):
+                sel += [syms[ix]] if isinstance(ix, int) else syms[ix]
+            syms = sel
+        rows[nm] = syms
+    n = min(len(v) for v in rows.values())
+    return [{nm: rows[nm][j] for nm in rows} for j in range(n)]
 
 
 # ----------------------------------------------------------------------------- JSON spec
@@ -339,8 +442,12 @@ def subst_json(sub: dict):
         return {"id": "m", "type": "HKY", "kappa": P("kappa", [sub["kappa"]]), "frequencies": P("freqs", sub["freqs"])}
     if k == "GTR":
         return {"id": "m", "type": "GTR", "rates": P("rates", sub["rates"]), "frequencies": P("freqs", sub["freqs"])}
+    if k == "GeneralJC69":
+        return {"id": "m", "type": "GeneralJC69", "state_count": sub["states"]}
     if k in ("GeneralSymmetric", "GeneralNonSymmetric"):
-        d = {"id": "m", "type": k + "SubstitutionModel", "data_type": {"id": "dt", "type": "NucleotideDataType"},
+        dtj = {"id": "dt", "type": "NucleotideDataType"} if sub.get("general") is None else \
+            {"id": "dt", "type": "GeneralDataType", "codes": sub["general"]["codes"], "ambiguities": sub["general"]["ambiguities"]}
+        d = {"id": "m", "type": k + "SubstitutionModel", "data_type": dtj,
              "rates": P("rates", sub["rates"]), "frequencies": P("freqs", sub["freqs"]), "mapping": sub["mapping"]}
         if k == "GeneralNonSymmetric":
             d["normalize"] = True
@@ -348,7 +455,7 @@ def subst_json(sub: dict):
     if k in ("LG", "WAG"):
         return {"id": "m", "type": "torchtree.evolution.substitution_model." + k}
     if k == "MG94":
-        return {"id": "m", "type": "MG94", "data_type": {"id": "dt", "type": "CodonDataType", "genetic_code": "Universal"},
+        return {"id": "m", "type": "MG94", "data_type": {"id": "dt", "type": "CodonDataType", "genetic_code": GENETIC_CODES[sub.get("genetic_code", 0)][0]},
                 "kappa": P("kappa", [sub["kappa"]]), "alpha": P("alpha", [sub["alpha"]]), "beta": P("beta", [sub["beta"]]),
                 "frequencies": P("freqs", sub["freqs"])}
     raise ValueError(k)
@@ -368,7 +475,11 @@ def site_json(site: dict):
     raise ValueError(k)
 
 
-def datatype_json(dt: str):
+def datatype_json(dt: str, case=None):
+    if dt == "general":
+        if case["subst"]["kind"] == "GeneralJC69":  # no data type inside the substitution model: define it here
+            return {"id": "dt", "type": "GeneralDataType", "codes": case["general"]["codes"], "ambiguities": case["general"]["ambiguities"]}
+        return "dt"
     if dt == "nucleotide":
         return "nucleotide"
     if dt == "aa":
@@ -383,7 +494,7 @@ def build_spec(case: dict) -> dict:
     taxa = {"id": "taxa", "type": "Taxa", "taxa": [
         {"id": nm, "type": "Taxon", "attributes": {"date": case["dates"][nm]}} if case.get("dates") else
         {"id": nm, "type": "Taxon"} for nm in case["taxa"]]}
-    aln = {"id": "aln", "type": "Alignment", "datatype": datatype_json(case["datatype"]), "taxa": "taxa",
+    aln = {"id": "aln", "type": "Alignment", "datatype": datatype_json(case["datatype"], case), "taxa": "taxa",
            "sequences": [{"taxon": nm, "sequence": case["seqs"][nm]} for nm in case["seq_order"]]}
     if case["rooting"] == "unrooted":
         if case.get("branch_lengths") is not None:
@@ -404,7 +515,8 @@ def build_spec(case: dict) -> dict:
             tree["keep_branch_lengths"] = True
     spec = {"id": "like", "type": "TreeLikelihoodModel", "tree_model": tree,
             "site_model": site_json(case["site"]),
-            "site_pattern": {"id": "sp", "type": "SitePattern", "alignment": aln},
+            "site_pattern": ({"id": "sp", "type": "SitePattern", "alignment": aln, "indices": case["indices"]} if case.get("indices")
+                             else {"id": "sp", "type": "SitePattern", "alignment": aln}),
             "substitution_model": subst_json(case["subst"])}
     if case.get("clock"):
         ck = case["clock"]
@@ -435,7 +547,7 @@ def rand_freqs(rng, n):
     return [v / s for v in x]
 
 
-def gen_subst(rng, kind):
+def gen_subst(rng, kind, general=None):
     if kind == "JC69":
         return {"kind": kind}
     if kind == "HKY":
@@ -443,18 +555,27 @@ def gen_subst(rng, kind):
     if kind == "GTR":
         return {"kind": kind, "rates": [rng.uniform(0.3, 3.0) for _ in range(6)], "freqs": rand_freqs(rng, 4)}
     if kind == "GeneralSymmetric":
-        nr = rng.choice([2, 3, 6])
-        mapping = [rng.randrange(nr) for _ in range(6)]
-        return {"kind": kind, "rates": [rng.uniform(0.3, 3.0) for _ in range(nr)], "freqs": rand_freqs(rng, 4), "mapping": mapping}
+        S = 4 if general is None else len(general["codes"])
+        pairs = S * (S - 1) // 2
+        nr = rng.choice([2, 3, pairs])
+        mapping = list(range(pairs)) if nr == pairs else [rng.randrange(nr) for _ in range(pairs)]
+        return {"kind": kind, "rates": [rng.uniform(0.3, 3.0) for _ in range(nr)], "freqs": rand_freqs(rng, S), "mapping": mapping,
+                "general": general}
     if kind == "GeneralNonSymmetric":
-        nr = rng.choice([3, 12])
-        mapping = list(range(12)) if nr == 12 else [rng.randrange(nr) for _ in range(12)]
-        return {"kind": kind, "rates": [rng.uniform(0.3, 3.0) for _ in range(nr)], "freqs": rand_freqs(rng, 4), "mapping": mapping}
+        S = 4 if general is None else len(general["codes"])
+        pairs = S * (S - 1)
+        nr = rng.choice([3, pairs])
+        mapping = list(range(pairs)) if nr == pairs else [rng.randrange(nr) for _ in range(pairs)]
+        return {"kind": kind, "rates": [rng.uniform(0.3, 3.0) for _ in range(nr)], "freqs": rand_freqs(rng, S), "mapping": mapping,
+                "general": general}
     if kind in ("LG", "WAG"):
         return {"kind": kind}
     if kind == "MG94":
+        k = 0 if general is None else general
         return {"kind": kind, "kappa": rng.uniform(1.0, 4.0), "alpha": rng.uniform(0.5, 2.0), "beta": rng.uniform(0.1, 1.5),
-                "freqs": rand_freqs(rng, 61)}
+                "freqs": rand_freqs(rng, len(codon_sense(k))), "genetic_code": k}
+    if kind == "GeneralJC69":
+        return {"kind": kind, "states": len(general["codes"])}
     raise ValueError(kind)
 
 
@@ -470,7 +591,7 @@ def gen_site(rng, kind):
     raise ValueError(kind)
 
 
-SUBST_DT = {"JC69": "nucleotide", "HKY": "nucleotide", "GTR": "nucleotide", "GeneralSymmetric": "nucleotide",
+SUBST_DT = {"GeneralJC69": "general", "JC69": "nucleotide", "HKY": "nucleotide", "GTR": "nucleotide", "GeneralSymmetric": "nucleotide",
             "GeneralNonSymmetric": "nucleotide", "LG": "aa", "WAG": "aa", "MG94": "codon"}
 NAMES = ["A", "b_1", "C", "D9", "e", "F_x", "G", "H", "taxon_I", "J", "K", "L2", "M", "n", "O", "P", "Q", "R", "S", "T"]
 
@@ -484,12 +605,34 @@ def make_names(rng, n):
 
 
 def gen_case(rng, n, topo: Node | None = None, subst=None, site=None, rooting=None, tip_states=None,
-             use_amb=None, nsites=None, clock=None, explicit_heights=None, special=None, use_amb_fixed=False) -> dict:
-    """one JSON-serialisable case description"""
+             use_amb=None, nsites=None, clock=None, explicit_heights=None, special=None, use_amb_fixed=False,
+             general=False, genetic_code=None, indices=None) -> dict:
+    """one JSON-serialisable case description. `general`: use a GeneralDataType (random codes / ambiguity map) with a
+    GeneralSymmetric / GeneralNonSymmetric / GeneralJC69 model; `genetic_code`: number of the genetic code for MG94;
+    `indices`: True = add a random SitePattern column selection"""
     subst = subst or rng.choice(["JC69", "HKY", "GTR", "GeneralSymmetric", "GeneralNonSymmetric"])
     site = site or rng.choice(["constant", "invariant", "weibull", "weibull+inv"])
     rooting = rooting or rng.choice(["unrooted", "time"])
     dt = SUBST_DT[subst]
+    gen = None
+    if general:
+        dt = "general"
+        S = rng.choice([2, 3, 5])
+        codes = rng.sample(list("0123456789ABCDEFGHXYZabc"), S)
+        spare = [c for c in "KLMNPQRSTUVWklmn" if c not in codes]
+        rng.shuffle(spare)
+        amb = {}
+        if S >= 3:
+            amb[spare.pop()] = rng.sample(codes, 2)
+            if rng.random() < 0.5:
+                amb[spare.pop()] = rng.sample(codes, S - 1 if S > 3 else 2)
+        if rng.random() < 0.7:
+            amb[spare.pop()] = rng.choice(codes)  # alias, e.g. {'U': 'T'}
+        gen = {"codes": codes, "ambiguities": amb}
+        if subst not in ("GeneralSymmetric", "GeneralNonSymmetric", "GeneralJC69"):
+            subst = rng.choice(["GeneralSymmetric", "GeneralNonSymmetric", "GeneralJC69"])
+    if dt == "codon" and genetic_code is None:
+        genetic_code = rng.randrange(len(GENETIC_CODES))
     if topo is None:
         names = make_names(rng, n)
         topo = shuffle_children(rng, random_topology(rng, names))
@@ -505,11 +648,33 @@ def gen_case(rng, n, topo: Node | None = None, subst=None, site=None, rooting=No
         seqs = random_alignment(rng, names, nsites, NUC18, "ACGT", lower=True,
                                 special=(rng.random() < 0.6) if special is None else special)
     elif dt == "aa":
-        seqs = random_alignment(rng, names, nsites, AA_ALL, AA20, p_amb=0.15)
+        seqs = random_alignment(rng, names, nsites, AA_ALL, AA20, p_amb=0.3, lower=True)
+    elif dt == "general":
+        alphabet = gen["codes"] + list(gen["ambiguities"]) + ["?", "-"]
+        seqs = random_alignment(rng, names, nsites, "".join(alphabet), "".join(gen["codes"]), p_amb=0.35)
     else:
-        seqs = random_codon_alignment(rng, names, nsites)
+        seqs = random_codon_alignment(rng, names, nsites, genetic_code)
     case = {"taxa": taxa, "seq_order": seq_order, "seqs": seqs, "datatype": dt, "rooting": rooting,
-            "subst": gen_subst(rng, subst), "site": gen_site(rng, site)}
+            "subst": gen_subst(rng, subst, general=(gen if dt == "general" else genetic_code)), "site": gen_site(rng, site)}
+    if dt == "general":
+        case["general"] = gen
+    if dt == "codon":
+        case["genetic_code"] = genetic_code
+    if indices and dt != "codon":
+        L = min(len(x) for x in seqs.values())
+        toks = []
+        for _ in range(rng.randint(1, 3)):
+            r = rng.random()
+            if r < 0.35:
+                toks.append(str(rng.randint(-L, L - 1)))
+            else:
+                a = rng.choice(["", str(rng.randint(-L - 1, L + 1))])
+                b = rng.choice(["", str(rng.randint(-L - 1, L + 1))])
+                c = rng.choice(["", "", "1", "2", "3", "-1", "-2"])
+                toks.append(f"{a}:{b}" + (f":{c}" if c or rng.random() < 0.2 else ""))
+        case["indices"] = ",".join(toks)
+        if not site_symbols(case):  # an empty selection cannot be compressed (zip of nothing): select everything too
+            case["indices"] += ",:"
     if tip_states is None:
         tip_states = True if rng.random() < 0.35 else rng.choice([False, "absent"])
     if tip_states == "absent":
@@ -626,7 +791,7 @@ def oracle_loglik(case, model, restrict_sites=None):
     subst_model.frequencies, site_model.rates()/probabilities() (C05's subject)."""
     import torch
 
-    dt = DATATYPES[case["datatype"]]
+    dt = dt_of(case)
     S = dt["S"]
     t = parse_newick(case["newick"])
     times = oracle_branch_times(case, t)
@@ -640,10 +805,8 @@ def oracle_loglik(case, model, restrict_sites=None):
     # tip vectors: "ambiguous tip = union of its states" when ambiguities are used, otherwise
     # everything that is not a plain state is missing; tip states always treat ambiguity as missing
     use_amb = bool(case.get("use_ambiguities")) and not case.get("use_tip_states")
-    size = dt["size"]
-    seqs = case["seqs"]
-    nsites = min(len(s) for s in seqs.values()) // size
-    sites = range(nsites) if restrict_sites is None else restrict_sites
+    symbols = site_symbols(case)
+    sites = range(len(symbols)) if restrict_sites is None else restrict_sites
     labs = np.array(list(itertools.product(range(S), repeat=len(internals))), dtype=np.int64)  # [L, I]
     Pm = {}
     for k, r in enumerate(rates):
@@ -663,8 +826,7 @@ def oracle_loglik(case, model, restrict_sites=None):
                 for c in x.kids:
                     M = Pm[(id(c), k)]
                     if c.is_leaf():
-                        sym = seqs[c.name][site_i * size:(site_i + 1) * size]
-                        v = dt["vec"](sym, use_amb)
+                        v = tip_vector(case, dt, symbols[site_i][c.name], use_amb)
                         w = w * (M @ np.array(v))[sp]
                     else:
                         w = w * M[sp, labs[:, pos[id(c)]]]
@@ -715,12 +877,23 @@ def fl(xs):
 
 def lean_pat(drv, case):
     dt = case["datatype"]
-    size = DATATYPES[dt]["size"]
-    aa = 1 if dt == "aa" else 0
+    size = dt_of(case)["size"]
     # use_ambiguities None -> the constructor default False
     ua = 1 if case.get("use_ambiguities") else 0
-    rep = drv.ask(f"pat {size} {aa} {ua} | " + " ".join(case["taxa"]) + " | " +
-                  " ".join(f"{nm}={case['seqs'][nm]}" for nm in case["seq_order"]))
+    seqs = " ".join(f"{nm}={case['seqs'][nm]}" for nm in case["seq_order"])
+    if dt == "general":
+        g = case["general"]
+        ambs = " ".join(k + "=" + (v if isinstance(v, str) else ",".join(v)) for k, v in g["ambiguities"].items())
+        req = f"patg {ua} | " + " ".join(case["taxa"]) + " | " + seqs + " | " + " ".join(g["codes"]) + " | " + ambs
+        if case.get("indices"):
+            req += " | " + " ".join(case["indices"].split(","))
+        rep = drv.ask(req)
+    else:
+        tok = {"nucleotide": "0", "aa": "1"}.get(dt) or ("c%d" % case.get("genetic_code", 0))
+        req = f"pat {size} {tok} {ua} | " + " ".join(case["taxa"]) + " | " + seqs
+        if case.get("indices"):
+            req += " | " + " ".join(case["indices"].split(","))
+        rep = drv.ask(req)
     if not rep.startswith("ok "):
         return None
     w = rep.split(" ")
@@ -740,6 +913,9 @@ def materialise(tree: Node, taxa, seq_order, seqs, base: dict) -> dict:
     """write down the tree/data held in `tree` (node-attached lengths / heights / rates) and `seqs` for a given
     taxa order, sequence order and child order: index-addressed vectors are recomputed from the node attributes"""
     case = {k: base[k] for k in ("datatype", "rooting", "subst", "site", "use_tip_states", "use_ambiguities", "dates")}
+    for k in ("genetic_code", "general", "indices"):
+        if base.get(k) is not None:
+            case[k] = base[k]
     case.update(taxa=list(taxa), seq_order=list(seq_order), seqs=dict(seqs))
     n = len(taxa)
     set_indices(tree, taxa)
@@ -845,7 +1021,7 @@ def mp_loglik(case, model, dps=60, sites=None):
     import torch
 
     mp.mp.dps = dps
-    dt = DATATYPES[case["datatype"]]
+    dt = dt_of(case)
     S, size = dt["S"], dt["size"]
     t = parse_newick(case["newick"])
     times = oracle_branch_times(case, t)
@@ -860,16 +1036,15 @@ def mp_loglik(case, model, dps=60, sites=None):
         for k in range(len(rates)):
             Pm[(id(x), k)] = [[mp.mpf(float(P[bi, k, a, b])) for b in range(S)] for a in range(S)]
     use_amb = bool(case.get("use_ambiguities")) and not case.get("use_tip_states")
-    seqs = case["seqs"]
-    nsites = min(len(s) for s in seqs.values()) // size
+    symbols = site_symbols(case)
     total, logs = mp.mpf(0), []
-    for j in (range(nsites) if sites is None else sites):
+    for j in (range(len(symbols)) if sites is None else sites):
         lik = mp.mpf(0)
         for k in range(len(rates)):
             part = {}
             for x in t.postorder():
                 if x.is_leaf():
-                    part[id(x)] = [mp.mpf(v) for v in dt["vec"](seqs[x.name][j * size:(j + 1) * size], use_amb)]
+                    part[id(x)] = [mp.mpf(v) for v in tip_vector(case, dt, symbols[j][x.name], use_amb)]
                 else:
                     out = [mp.mpf(1)] * S
                     for c in x.kids:
